@@ -146,6 +146,11 @@ theorem best_maximal (p : Profile) (c : Case) (g : Nat → Fam) (h : c.Good g) :
 theorem addpath_is_prefix (f : Fam) (r : Rib) (k : Nat) :
     ∀ ch ∈ r.collect f (some k), ∃ ch' ∈ r.collect f none, ch'.net = ch.net ∧ ch.paths = ch'.paths.take k := by
   intro ch hch
+  have hd : r.deferring = false := by
+    cases hx : r.deferring with
+    | false => rfl
+    | true => rw [collect_deferring hx] at hch; exact absurd hch List.not_mem_nil
+  rw [collect_not_deferring hd] at hch ⊢
   obtain ⟨nd, hnd, hc⟩ := mem_collect.mp hch
   obtain ⟨hne, rfl⟩ := collectOf_some hc
   have hne' : (collectPaths none nd).isEmpty = false := by
